@@ -74,6 +74,12 @@ func (s ICEServer) urls() ([]*stun.URI, error) { //nolint:cyclop
 }
 
 func iceserverUnmarshalUrls(val any) (*[]string, error) {
+	if val == nil {
+		// MarshalJSON writes a nil URL list as "urls":null
+		var none []string
+
+		return &none, nil
+	}
 	s, ok := val.([]any)
 	if !ok {
 		return nil, errInvalidICEServer
